@@ -22,6 +22,15 @@ inductive Chain (ph : Phys) : Option Nat → List Nat → List (Section × Trail
       lookupNat ph.secs x = some dx → loadSection ph dx = .ok (sx, trx) →
       trx.xrefstm = none → trx.prev = none →
       Chain ph tr.prev ps rest → Chain ph (some p) (p :: x :: ps) ((s, tr) :: (sx, trx) :: rest)
+  /-- the oldest revision's `/Prev` points at itself (circular): the chain ends there -/
+  | selfPlain {p d s tr} :
+      lookupNat ph.secs p = some d → loadSection ph d = .ok (s, tr) → tr.xrefstm = none → tr.prev = some p →
+      Chain ph (some p) [p] [(s, tr)]
+  | selfHybrid {p x d dx s sx tr trx} :
+      lookupNat ph.secs p = some d → loadSection ph d = .ok (s, tr) → tr.xrefstm = some x →
+      lookupNat ph.secs x = some dx → loadSection ph dx = .ok (sx, trx) →
+      trx.xrefstm = none → trx.prev = none → tr.prev = some p →
+      Chain ph (some p) [p, x] [(s, tr), (sx, trx)]
 
 /-- `if "Prev" in trailer: self.read_xref_from(…)` -/
 def follow (ph : Phys) (fuel : Nat) (o : Option Nat) (st : List (Section × Trailer) × List Nat) :
@@ -60,10 +69,14 @@ theorem readXrefFrom_step (ph : Phys) (fuel p : Nat) (acc : List (Section × Tra
         simp only []
         cases readXrefFrom ph fuel q st <;> rfl
 
+theorem readXrefFrom_visited (ph : Phys) (fuel p : Nat) (acc : List (Section × Trailer)) (visited : List Nat)
+    (h : p ∈ visited) : readXrefFrom ph (fuel + 1) p (acc, visited) = .ok (acc, visited) := by
+  simp [readXrefFrom, h]
+
 /-- The whole chain, for any number of revisions. -/
 theorem follow_chain {ph : Phys} {o : Option Nat} {ps : List Nat} {L : List (Section × Trailer)}
     (h : Chain ph o ps L) : ∀ (fuel : Nat) (acc : List (Section × Trailer)) (visited : List Nat),
-      ps.length ≤ fuel → (∀ p ∈ ps, p ∉ visited) → ps.Nodup →
+      ps.length < fuel → (∀ p ∈ ps, p ∉ visited) → ps.Nodup →
       follow ph fuel o (acc, visited) = .ok (acc ++ L, ps.reverse ++ visited) := by
   induction h with
   | done => intro fuel acc visited _ _ _; simp [follow]
@@ -118,6 +131,42 @@ theorem follow_chain {ph : Phys} {o : Option Nat} {ps : List Nat} {L : List (Sec
         rw [this]
         simp
 
+  | @selfPlain p d s tr hl hd hx hp =>
+    intro fuel acc visited hf hdis hnd
+    cases fuel with
+    | zero => simp at hf
+    | succ f =>
+      cases f with
+      | zero => simp at hf
+      | succ g =>
+        simp only [follow]
+        rw [readXrefFrom_step ph (g + 1) p acc visited d s tr (hdis p List.mem_cons_self) hl hd, hx, hp]
+        simp only [follow, Except.bind]
+        rw [readXrefFrom_visited ph g p _ _ List.mem_cons_self]
+        simp
+  | @selfHybrid p x d dx s sx tr trx hl hd hx hlx hdx hxx hxp hp =>
+    intro fuel acc visited hf hdis hnd
+    cases fuel with
+    | zero => simp at hf
+    | succ f =>
+      cases f with
+      | zero => simp at hf
+      | succ g =>
+        have hnd1 := List.nodup_cons.mp hnd
+        have hxp' : x ≠ p := fun h => hnd1.1 (h ▸ List.mem_cons_self)
+        have hxv : x ∉ p :: visited := by
+          intro hmem
+          rcases List.mem_cons.mp hmem with h | h
+          · exact hxp' h
+          · exact hdis x (List.mem_cons_of_mem _ List.mem_cons_self) h
+        simp only [follow]
+        rw [readXrefFrom_step ph (g + 1) p acc visited d s tr (hdis p List.mem_cons_self) hl hd, hx, hp]
+        simp only [follow]
+        rw [readXrefFrom_step ph g x (acc ++ [(s, tr)]) (p :: visited) dx sx trx hxv hlx hdx, hxx, hxp]
+        simp only [follow, Except.bind]
+        rw [readXrefFrom_visited ph g p _ _ (List.mem_cons_of_mem _ List.mem_cons_self)]
+        simp
+
 /-- The executable chain follower is sound. -/
 theorem chainOf_sound (ph : Phys) (fuel : Nat) : ∀ (o : Option Nat) (ps : List Nat) (L : List (Section × Trailer)),
     chainOf ph fuel o = some (ps, L) → Chain ph o ps L := by
@@ -148,13 +197,19 @@ theorem chainOf_sound (ph : Phys) (fuel : Nat) : ∀ (o : Option Nat) (ps : List
           | none =>
             rw [hx] at h
             simp only at h
-            cases hc : chainOf ph fuel tr.prev with
-            | none => rw [hc] at h; simp at h
-            | some r =>
-              rw [hc] at h
-              simp only [Option.map_some, Option.some.injEq, Prod.mk.injEq] at h
+            by_cases hself : (tr.prev == some p) = true
+            · rw [if_pos hself] at h
+              simp only [Option.some.injEq, Prod.mk.injEq] at h
               rw [← h.1, ← h.2]
-              exact .plain hl hd hx (ih _ _ _ hc)
+              exact .selfPlain hl hd hx (by simpa using hself)
+            · rw [if_neg hself] at h
+              cases hc : chainOf ph fuel tr.prev with
+              | none => rw [hc] at h; simp at h
+              | some r =>
+                rw [hc] at h
+                simp only [Option.map_some, Option.some.injEq, Prod.mk.injEq] at h
+                rw [← h.1, ← h.2]
+                exact .plain hl hd hx (ih _ _ _ hc)
           | some x =>
             rw [hx] at h
             simp only at h
@@ -172,13 +227,19 @@ theorem chainOf_sound (ph : Phys) (fuel : Nat) : ∀ (o : Option Nat) (ps : List
                 by_cases hcond : (trx.xrefstm.isNone && trx.prev.isNone) = true
                 · rw [if_pos hcond] at h
                   simp only [Bool.and_eq_true, Option.isNone_iff_eq_none] at hcond
-                  cases hc : chainOf ph fuel tr.prev with
-                  | none => rw [hc] at h; simp at h
-                  | some r =>
-                    rw [hc] at h
-                    simp only [Option.map_some, Option.some.injEq, Prod.mk.injEq] at h
+                  by_cases hself : (tr.prev == some p) = true
+                  · rw [if_pos hself] at h
+                    simp only [Option.some.injEq, Prod.mk.injEq] at h
                     rw [← h.1, ← h.2]
-                    exact .hybrid hl hd hx hlx hdx hcond.1 hcond.2 (ih _ _ _ hc)
+                    exact .selfHybrid hl hd hx hlx hdx hcond.1 hcond.2 (by simpa using hself)
+                  · rw [if_neg hself] at h
+                    cases hc : chainOf ph fuel tr.prev with
+                    | none => rw [hc] at h; simp at h
+                    | some r =>
+                      rw [hc] at h
+                      simp only [Option.map_some, Option.some.injEq, Prod.mk.injEq] at h
+                      rw [← h.1, ← h.2]
+                      exact .hybrid hl hd hx hlx hdx hcond.1 hcond.2 (ih _ _ _ hc)
                 · rw [if_neg hcond] at h
                   simp at h
 
